@@ -2,7 +2,7 @@
 data/proplogic.py, logic/logic.py (and logic/auto.py for the proof-producing real normaliser) on real terms.
 
 modes
-  all   <dump> <vectors.ndjson> <out.ndjson> <jobs> <arith_mod> <int_mod> <comb_mod> <nrand> <seed> <cap>
+  all   <dump> <vectors.ndjson> <out.ndjson> <jobs> <arith_mod> <int_mod> <comb_mod> <nrand> <seed> <cap> <deep>
         the three parts below in one process (the theories are loaded once, then <jobs> children are forked); events carry
         src = "replay" | "comb" | "rand"
   part "replay":
@@ -10,11 +10,15 @@ modes
         (mode, ty, cls) are one orbit.  Every member e is decoded to a real term (a "ring" orbit at int AND at real) and every
         normaliser of its kind is run on it: one "norm" event per (member, normaliser), one "orbit" event per (orbit, normaliser)
         carrying all (x, rhs).  arith_mod / int_mod: replay only the arithmetic (resp. integer) orbits whose class digest is
-        0 modulo it; cap: at most that many members of one orbit (the smallest and a seeded sample; propositional orbits: at most 60).  TLC explores everything
+        0 modulo it; cap: at most that many members of one orbit (the smallest and a seeded sample; propositional orbits: 3/5 of it, at least 12, at most 60).  TLC explores everything
         in any case.
   part "comb":   (terms whose digest is 0 modulo comb_mod, and all terms the specification marks `must`)
         every term of spec/C10_Terms.tla (twice: binders named "x", clashing with the free variable x, and binders with fresh
         names) x every traversal / rewriting combinator of CONVS: one "comb" event each.
+  part "hist":
+        theory HISTORIES for the normaliser whose behaviour depends on the theory (nat.norm_full): one theory object, extended item by
+        item through nat.json; after each extension (quick: around the binary-arithmetic theorems; deep: items 18..89, then every
+        12th) the normaliser runs on members of every nat orbit: norm + orbit events with the facts of the theory state (thy).
   part "rand":
         seeded random larger expressions (5-8 leaves) with random class-preserving rearrangements (input generation only:
         the T specification recomputes the classes), as norm + orbit events.
@@ -80,6 +84,8 @@ def hol_prop(a):
         return false
     if k == "not":
         return Not(hol_prop(a[1]))
+    if k == "o" and a[1][0] == "hol":      # an application atom: carries the term itself (codec encoding)
+        return dec(a[1][1])
     if k in ("and", "or", "imp", "iff"):
         x, y = hol_prop(a[1]), hol_prop(a[2])
         return {"and": term.conj, "or": term.disj, "imp": term.implies, "iff": term.equals(BoolType)}[k](x, y)
@@ -167,9 +173,19 @@ def closed(a):
 MEMBER_FILTER = {"nat_conv": closed}
 
 
-def norm_orbit(mode, ty, okey, members, emit):
+def thy_facts():
+    """What the CURRENT theory object contains of the theorems the modes of nat.norm_full are documented to depend on
+    (asked from the theory itself, not from any remembered answer)."""
+    th = theory.thy
+    return {"add_assoc": th.has_theorem("add_assoc"), "mult_comm": th.has_theorem("mult_comm"), "binary": th.has_theorem("bit1_bit1_mult")}
+
+
+def norm_orbit(mode, ty, okey, members, emit, only=None, tag=""):
     """members: list of (abstract vector or None, real term)."""
+    facts = thy_facts()
     for name, mk in NORMS[(mode, ty)]:
+        if only is not None and name not in only:
+            continue
         cv = mk()
         ms = []
         for ax, t in members:
@@ -178,7 +194,7 @@ def norm_orbit(mode, ty, okey, members, emit):
             r, rhs = run_conv(cv, t, True)
             xj = enc(t)
             ev = {"kind": "norm", "cv": name, "ty": ty, "mode": mode, "x": xj, "ax": ax if ax is not None else ["none"], "conds": [],
-                  "key": "norm:%s:%s:%s" % (name, ty, digest(xj))}
+                  "thy": facts, "key": "norm:%s:%s:%s%s" % (name, ty, digest(xj), tag)}
             ev.update(r)
             emit(ev)
             if rhs is not None and r["pt"]["o"] == "ok":
@@ -189,8 +205,8 @@ def norm_orbit(mode, ty, okey, members, emit):
             part = ms[i:i + ORBIT_CHUNK] if i == 0 else [ms[0]] + ms[i:i + ORBIT_CHUNK - 1]
             step = ORBIT_CHUNK if i == 0 else ORBIT_CHUNK - 1
             if len(part) >= 2:
-                emit({"kind": "orbit", "cv": name, "ty": ty, "mode": mode, "ms": part,
-                      "key": "orbit:%s:%s:%s:%d" % (name, ty, okey, i)})
+                emit({"kind": "orbit", "cv": name, "ty": ty, "mode": mode, "ms": part, "thy": facts,
+                      "key": "orbit:%s:%s:%s%s:%d" % (name, ty, okey, tag, i)})
             i += step
 
 
@@ -248,8 +264,7 @@ def has_op(a, ops):
     return a[0] in ops or any(has_op(b, ops) for b in a[1:] if isinstance(b, list))
 
 
-def norm_items(dump_path, arith_mod, int_mod, seed, cap):
-    states = parse_dump(dump_path)
+def norm_items(states, arith_mod, int_mod, seed, cap):
     orbits = {}
     for s in states:
         orbits.setdefault((s["mode"], s["ty"], s["cls"]), []).append(s["e"])
@@ -258,7 +273,7 @@ def norm_items(dump_path, arith_mod, int_mod, seed, cap):
         okey = digest([mode, ty, cls])
         es = sorted(es, key=lambda e: json.dumps(e))
         if mode != "arith":
-            cap_ = min(cap, 60)
+            cap_ = min(60, max(12, cap * 3 // 5))      # 12 = all orders and bracketings of three members
         else:
             cap_ = cap
         if len(es) > cap_:
@@ -292,6 +307,52 @@ def work_norm(it, emit):
     norm_orbit(mode, ty, okey, members, emit2)
 
 
+# ------------------------------------------------------------------------------------------------ theory histories
+def hist_items(states, seed, positions, per_orbit, nhist):
+    """The nat orbits of the machine (per_orbit members each: the smallest and a seeded sample), split over nhist independent
+    histories.  A history = ONE theory object: the imports of nat, then the items of nat.json added one by one with
+    unchecked_extend (what app/ide.py does when it loads a file); the normaliser is invoked after every extension in `positions`."""
+    orbits = {}
+    for s in states:
+        if s["mode"] == "arith" and s["ty"] == "nat":
+            orbits.setdefault(s["cls"], []).append(s["e"])
+    sel = []
+    for cls, es in sorted(orbits.items(), key=lambda kv: digest(kv[0])):
+        if len(es) < 2:
+            continue
+        es = sorted(es, key=lambda e: (len(json.dumps(e)), json.dumps(e)))
+        rnd = random.Random("hist/%s/%s" % (seed, digest(cls)))
+        sel.append((digest(cls), es[:1] + rnd.sample(es[1:], min(per_orbit - 1, len(es) - 1))))
+    items = [("hist", sorted(positions), sel[k::nhist]) for k in range(nhist) if sel[k::nhist]]
+    print("hist: %d nat orbits x %d theory states in %d histories" % (len(sel), len(positions), len(items)))
+    return items
+
+
+def work_hist(it, emit):
+    _, positions, orbits = it
+    saved = theory.thy
+    try:
+        cache = basic.load_theory_cache("nat")
+        basic.load_theory("nat", limit="start")
+        obj = theory.thy
+        members = [(okey, [(e, hol_arith(e, NatType)) for e in es]) for okey, es in orbits]
+        for i, item in enumerate(cache["content"]):
+            if i > positions[-1]:
+                break
+            if item.error is None:
+                theory.thy.unchecked_extend(item.get_extension())
+            if theory.thy is not obj:
+                raise RuntimeError("history: the theory object was replaced")
+            if i in positions:
+                def emit2(ev):
+                    ev["src"], ev["pos"], ev["item"] = "hist", i, getattr(item, "name", "")
+                    emit(ev)
+                for okey, ms in members:
+                    norm_orbit("arith", "nat", okey, ms, emit2, only=("nat_norm_full",), tag="@%d" % i)
+    finally:
+        theory.thy = saved
+
+
 # ------------------------------------------------------------------------------------------------ combinators
 def build(j, names, depth=0):
     k = j[0]
@@ -302,7 +363,9 @@ def build(j, names, depth=0):
     return dec(j)
 
 
-ROUTES = {"x": lambda d: "x", "u": lambda d: "uvwpq"[d % 5] + ("" if d < 5 else str(d))}
+# binder namings: every binder "x" (the name of a free variable AND of every enclosing binder), every binder "z" (the name of every
+# enclosing binder, of no free variable), all different
+ROUTES = {"x": lambda d: "x", "z": lambda d: "z", "u": lambda d: "uvwpq"[d % 5] + ("" if d < 5 else str(d))}
 X, Y = Var("x", NatType), Var("y", NatType)
 COND = ProofTerm.assume(term.less_eq(NatType)(Y, X))       # y <= x  |-  y <= x
 
@@ -341,6 +404,13 @@ def convs():
     return cs
 
 
+# the quick tier leaves out the combinator expressions that only repeat another one with a different rule
+QUICK_SKIP = {"top('add_0_right')", "then(R0,R0)", "R1", "arg1(R0)", "argn(0,try(R0))", "assums(try(R0))", "fun(eta)", "comb(try(beta))",
+              "repeat(else(R0,R1))", "binop(R0)", "else(RC,R0)", "try(R0sym)", "abs(R0)", "sweep(eta)", "bottom(else(R0,R1))",
+              "then(try(R0),try(R1))", "top(R0,R1)", "then(R0,R1)"}
+DEEP = [1]
+
+
 def comb_events(tj, route, cs, emit, only=None):
     t = build(tj, ROUTES[route])
     for name, cv, conds in cs:
@@ -360,11 +430,16 @@ def has_abs(j):
     return j[0] == "abs" or (j[0] == "comb" and (has_abs(j[1]) or has_abs(j[2])))
 
 
+def count_abs(j):
+    return (1 + count_abs(j[2])) if j[0] == "abs" else (count_abs(j[1]) + count_abs(j[2])) if j[0] == "comb" else 0
+
+
 def comb_items(vec_path, comb_mod, seed):
     vecs = [json.loads(ln) for ln in open(vec_path) if ln.strip()]
     vecs = [v for v in vecs if v.get("must") or hmod(digest(v["t"]) + str(seed), comb_mod) == 0]
     # binders named "x" (clashing with the free variable x) and, when there is a binder, fresh names
-    items = [("comb", "comb", v["t"], route) for v in vecs for route in (("x", "u") if has_abs(v["t"]) else ("x",))]
+    items = [("comb", "comb", v["t"], route) for v in vecs
+             for route in (("x",), ("x", "u"), ("x", "u", "z"))[min(count_abs(v["t"]), 2)]]
     print("comb: %d terms, %d (term, binder naming) inputs" % (len(vecs), len(items)))
     return items
 
@@ -374,7 +449,7 @@ CS = []
 
 def work_comb(it, emit):
     if not CS:
-        CS.extend(convs())
+        CS.extend(c for c in convs() if DEEP[0] or c[0] not in QUICK_SKIP)
 
     def emit2(ev):
         ev["src"] = "comb"
@@ -427,7 +502,11 @@ def shuffle_arith(rnd, e):
 
 def rnd_prop_members(rnd, n):
     atoms = [["v", c] for c in "ABCD"]
-    pool = atoms + [["not", a] for a in atoms] + [["T"], ["F"], ["imp", ["v", "A"], ["v", "B"]], ["iff", ["v", "C"], ["v", "A"]]]
+    x, y, f = Var("x", NatType), Var("y", NatType), Var("f", TFun(NatType, NatType))
+    P = Var("P", TFun(NatType, BoolType))
+    apps = [["o", ["hol", enc(t)]] for t in (term.less(NatType)(x, y), Eq(f(x), y), P(f(y)), term.less_eq(NatType)(f(x), x))]
+    pool = atoms + [["not", a] for a in atoms] + [["T"], ["F"], ["imp", ["v", "A"], ["v", "B"]], ["iff", ["v", "C"], ["v", "A"]]] \
+        + apps + [["not", a] for a in apps[:2]] + [["T"], ["F"]]
     return [rnd.choice(pool) for _ in range(n)]
 
 
@@ -466,16 +545,24 @@ def rand_items(n, seed):
 def cost(it):
     if it[0] == "comb":
         return 60
+    if it[0] == "hist":
+        return 10 ** 6
     return len(it[5]) * {"int": 8, "nat": 3, "real": 3}.get(it[3], 3)
 
 
-def run_all(dump_path, vec_path, out_path, jobs, arith_mod, int_mod, comb_mod, nrand, seed, cap):
-    items = norm_items(dump_path, arith_mod, int_mod, seed, cap) + comb_items(vec_path, comb_mod, seed) + rand_items(nrand, seed)
+def run_all(dump_path, vec_path, out_path, jobs, arith_mod, int_mod, comb_mod, nrand, seed, cap, deep):
+    DEEP[0] = deep
+    states = parse_dump(dump_path)
+    # theory states of the histories: after the items of nat.json with these indices (mult_comm is item 28, the binary-arithmetic
+    # theorems are items 45..54, bit1_bit1_mult the last of them)
+    positions = (set(range(18, 90)) | set(range(90, 260, 12)) | {259}) if deep else ({40} | set(range(49, 58)))
+    items = norm_items(states, arith_mod, int_mod, seed, cap) + comb_items(vec_path, comb_mod, seed) + rand_items(nrand, seed) \
+        + hist_items(states, seed, positions, 3 if deep else 2, 4 if deep else 2)
     # most expensive first, so that the round-robin split over the children is balanced
     items.sort(key=lambda it: -cost(it))
 
     def work(it, emit):
-        (work_comb if it[0] == "comb" else work_norm)(it, emit)
+        {"comb": work_comb, "norm": work_norm, "hist": work_hist}[it[0]](it, emit)
     n = fork_jobs(jobs, items, work, out_path)
     print("all: %d work items, %d events" % (len(items), n))
 
@@ -499,12 +586,36 @@ def event(in_path, out_path):
                     ev = {k: e[k] for k in ("kind", "cv", "route", "ty", "mode", "x", "ax", "conds", "key")}
                     ev.update(r)
                     emit(ev)
+        elif e.get("src") == "hist":
+            # the history up to the recorded theory state, the normaliser invoked on the recorded terms after every earlier
+            # extension of the quick window as well; only the events of the recorded state are emitted
+            terms = [dec_keep(e["x"])] if e["kind"] == "norm" else [dec_keep(m["x"]) for m in e["ms"]]
+            saved = theory.thy
+            try:
+                cache = basic.load_theory_cache("nat")
+                basic.load_theory("nat", limit="start")
+                for i, item in enumerate(cache["content"]):
+                    if i > e["pos"]:
+                        break
+                    if item.error is None:
+                        theory.thy.unchecked_extend(item.get_extension())
+                    if i == e["pos"]:
+                        def emit2(ev):
+                            ev["src"], ev["pos"] = "hist", i
+                            if ev["kind"] == e["kind"]:
+                                emit(ev)
+                        norm_orbit("arith", "nat", "replayed", [(None, t) for t in terms], emit2, only=("nat_norm_full",), tag="@%d" % i)
+                    elif i in ({30, 40, 45} | set(range(49, 58))) or i % 12 == 6:
+                        norm_orbit("arith", "nat", "replayed", [(None, t) for t in terms], lambda ev: None, only=("nat_norm_full",))
+            finally:
+                theory.thy = saved
         elif e["kind"] == "norm":
             t = dec_keep(e["x"])
             for name, mk in NORMS[(e["mode"], e["ty"])]:
                 if name == e["cv"]:
                     r, _ = run_conv(mk(), t, True)
                     ev = {k: e[k] for k in ("kind", "cv", "ty", "mode", "x", "ax", "conds", "key")}
+                    ev["thy"] = thy_facts()
                     ev.update(r)
                     emit(ev)
         else:
@@ -517,7 +628,7 @@ def event(in_path, out_path):
                         o, exc, pt = outcome(lambda: cv.get_proof_term(t))
                         if pt is not None and pt.th.prop.is_equals():
                             ms.append({"x": m["x"], "rhs": enc(pt.th.prop.rhs)})
-                    emit({"kind": "orbit", "cv": e["cv"], "ty": e["ty"], "mode": e["mode"], "ms": ms, "key": e["key"]})
+                    emit({"kind": "orbit", "cv": e["cv"], "ty": e["ty"], "mode": e["mode"], "ms": ms, "key": e["key"], "thy": thy_facts()})
     with open(out_path, "w") as f:
         for ev in out:
             f.write(json.dumps(ev, separators=(",", ":")) + "\n")
@@ -532,7 +643,7 @@ def dec_keep(j):
 if __name__ == "__main__":
     mode = sys.argv[1]
     if mode == "all":
-        run_all(sys.argv[2], sys.argv[3], sys.argv[4], *[int(a) for a in sys.argv[5:12]])
+        run_all(sys.argv[2], sys.argv[3], sys.argv[4], *[int(a) for a in sys.argv[5:13]])
     elif mode == "event":
         event(sys.argv[2], sys.argv[3])
     else:
